@@ -219,6 +219,15 @@ Proof. intros A NA. exact (@gen_list_is_model A NA). Qed.
 Theorem C18_source_constants : ConvexRegion_tol (A:=R) = 7737125245533627 / 77371252455336267181195264 /\ Intersection_maxiter = 1000%nat.
 Proof. exact gen_constants. Qed.
 
+(* Device.project regenerated from device.py (Gen/Projection.v): `self._feasible_region.project(s.reshape(len(self))).reshape(self.shape)` with
+   the box region REBUILT from the stored bounds by __init__ and by the bounds setter (checked by the translator) IS the leaf
+   projection of the tree model (tproject at a PLeaf), any carrier *)
+From DK.Proofs Require Import GenDeviceProject.
+Theorem C18_source_device_project : forall (A : Type) (NA : Num A) (bounds : list (A * A)) (s : list (list A)),
+  Device_project bounds s = leaf_project bounds s.
+Proof. intros A NA. exact (@gen_device_project A NA). Qed.
+
+
 (* ---- Device / DeviceSet / MFDeviceSet.project, for trees of any depth and fan-out ---- *)
 Theorem C18_tree_structure : forall n t m, twf n t -> mshape (prows t) n m ->
   exists m', tproject n t m = POk m' /\ mshape (prows t) n m' /\ trel (leaf_does n) (mf_does n) t m m'.
